@@ -392,8 +392,19 @@ func c14Fix(w *W, id int) {
 				day = fmt.Sprintf("%04d%02d%02d", 2026+rng.Intn(5), 1+rng.Intn(12), 1+rng.Intn(28))
 			case 1: // a new day inside an existing year
 				day = fmt.Sprintf("%04d%02d%02d", 2002+rng.Intn(23), 1+rng.Intn(12), 1+rng.Intn(28))
-			case 2: // before the first record
+			case 2: // before the first record, or a statutory festival day (lunar 1/1-3, 5/5, 8/15, Qingming) of a table year
 				day = fmt.Sprintf("%04d%02d%02d", 1995+rng.Intn(6), 1+rng.Intn(12), 1+rng.Intn(28))
+				if rng.Intn(2) == 0 {
+					yy := 2002 + rng.Intn(24)
+					md := [][2]int{{1, 1}, {1, 2}, {1, 3}, {5, 5}, {8, 15}}[rng.Intn(5)]
+					var fs *calendar.Solar
+					if rng.Intn(4) == 0 {
+						fs = calendar.NewSolarFromYmd(yy, 6, 15).GetLunar().GetJieQiTable()["清明"]
+					} else {
+						fs = calendar.NewLunarFromYmd(yy, md[0], md[1]).GetSolar()
+					}
+					day = fmt.Sprintf("%04d%02d%02d", fs.GetYear(), fs.GetMonth(), fs.GetDay())
+				}
 			default: // an existing record (replace or remove)
 				day = existing[rng.Intn(len(existing))]
 			}
@@ -466,6 +477,50 @@ func c14Fix(w *W, id int) {
 	w.Eval(len(want))
 	// the views must reflect the fix-ups (keys touched by this scenario)
 	c14Views(w, want, ctx, false, touched...)
+	// ... and so must workday stepping and the pay multiplier around every touched day
+	byDay := map[string]hrec{}
+	for _, r := range want {
+		byDay[r.day] = r
+	}
+	for _, r := range touched {
+		y, m, d := atoi(r.day[:4]), atoi(r.day[4:6]), atoi(r.day[6:8])
+		if !ref.Exists(y, m, d) {
+			continue
+		}
+		j := ref.JDN(y, m, d)
+		s := calendar.NewSolarFromYmd(y, m, d)
+		l := s.GetLunar()
+		qm := l.GetJieQiTable()["清明"]
+		statutory := (m == 1 && d == 1) || (m == 5 && d == 1) || (m == 10 && d >= 1 && d <= 3) || (l.GetMonth() == 1 && l.GetDay() >= 1 && l.GetDay() <= 3) || (l.GetMonth() == 5 && l.GetDay() == 5) || (l.GetMonth() == 8 && l.GetDay() == 15) || (qm != nil && qm.GetYear() == y && qm.GetMonth() == m && qm.GetDay() == d)
+		wantRate := 1
+		if statutory {
+			wantRate = 3
+		} else if !c14Working(byDay, j) {
+			wantRate = 2
+		}
+		if got := s.GetSalaryRate(); got != wantRate {
+			w.Violatef("salary-rate", fmt.Sprintf("fix%d/%s", id, r.day), "%s: GetSalaryRate(%s)=%d, rule gives %d (statutory=%v, working=%v)", ctx, dash(r.day), got, wantRate, statutory, c14Working(byDay, j))
+		}
+		for _, n := range []int{1, -1, 3, -3} {
+			e, rest, dir := j-n, absInt(n), 1
+			if n < 0 {
+				dir = -1
+			}
+			start := e
+			for rest > 0 {
+				e += dir
+				if c14Working(byDay, e) {
+					rest--
+				}
+			}
+			sy, sm, sd := ref.FromJDN(start)
+			ey, em, ed := ref.FromJDN(e)
+			if got := calendar.NewSolarFromYmd(sy, sm, sd).Next(n, true).ToYmd(); got != ymd(ey, em, ed) {
+				w.Violatef("workday-step", fmt.Sprintf("fix%d/%s%+d", id, ymd(sy, sm, sd), n), "%s: %s.Next(%d,true) = %s, the record set puts it at %s", ctx, ymd(sy, sm, sd), n, got, ymd(ey, em, ed))
+			}
+		}
+		w.Eval(5)
+	}
 	w.Distinct(1)
 	w.Count("fix-scenarios", 1)
 	if id%1000 == 0 {
